@@ -290,6 +290,18 @@ func foldPure(cal *types.Func, args []ast.Expr, ev func(ast.Expr) constant.Value
 	if cal == nil || cal.Pkg() == nil {
 		return nil
 	}
+	full := cal.Pkg().Path() + "." + cal.Name()
+	if (full == "strings.LastIndexByte" || full == "strings.IndexByte") && len(args) == 2 {
+		sv, bv := ev(args[0]), ev(args[1])
+		if sv == nil || bv == nil || sv.Kind() != constant.String || bv.Kind() != constant.Int {
+			return nil
+		}
+		b, _ := constant.Int64Val(bv)
+		if full == "strings.IndexByte" {
+			return constant.MakeInt64(int64(strings.IndexByte(constant.StringVal(sv), byte(b))))
+		}
+		return constant.MakeInt64(int64(strings.LastIndexByte(constant.StringVal(sv), byte(b))))
+	}
 	vals := make([]string, len(args))
 	for i, a := range args {
 		v := ev(a)
@@ -298,7 +310,13 @@ func foldPure(cal *types.Func, args []ast.Expr, ev func(ast.Expr) constant.Value
 		}
 		vals[i] = constant.StringVal(v)
 	}
-	switch cal.Pkg().Path() + "." + cal.Name() {
+	switch full {
+	case "strings.Index":
+		return constant.MakeInt64(int64(strings.Index(vals[0], vals[1])))
+	case "strings.LastIndex":
+		return constant.MakeInt64(int64(strings.LastIndex(vals[0], vals[1])))
+	case "strings.ToLower":
+		return constant.MakeString(strings.ToLower(vals[0]))
 	case "strings.HasPrefix":
 		return b2c(strings.HasPrefix(vals[0], vals[1]))
 	case "strings.HasSuffix":
@@ -443,7 +461,7 @@ func (j *Job) Run() []Outcome {
 							// op-assign: |=, &= …
 							cur := env.Vars[obj]
 							op := map[token.Token]token.Token{token.OR_ASSIGN: token.OR, token.AND_ASSIGN: token.AND, token.ADD_ASSIGN: token.ADD, token.SUB_ASSIGN: token.SUB}[st.Tok]
-							if cur != nil && vals[k] != nil && op != 0 && cur.Kind() == constant.Int {
+							if cur != nil && vals[k] != nil && op != 0 && (cur.Kind() == constant.Int || (cur.Kind() == constant.String && vals[k].Kind() == constant.String && op == token.ADD)) {
 								env.Vars[obj] = constant.BinaryOp(cur, op, vals[k])
 							} else {
 								env.Vars[obj] = nil
